@@ -1,4 +1,4 @@
-import NitroVerif.Lemmas.OptResult
+import NitroVerif.Lemmas.OptProvided
 import NitroVerif.Model.Opt
 import NitroVerif.Spec.Opt
 import NitroVerif.Props.C11
@@ -185,5 +185,20 @@ theorem required_without_source (d : Decl) (hn : (allNames d).Nodup) (hc : consi
   have herr : interpOpt env items o = .error .user := by
     rw [(interpOpt_ranking env items o).2.2.2 hcli henv hd, hreq]; rfl
   exact interp_err_left d env items (Or.inl (mapAll_err _ _ o ho _ herr))
+
+
+/-- **`provided` exactly when the value came from the command line or the environment**: after a
+successful parse an option (of any kind) is in the provided list if and only if the ranking took its
+value from one of those two sources (the second component of `interpOpt` / `interpMul` /
+`interpTog`, which is `true` exactly in the command-line and environment cases of
+`interpOpt_ranking`, `interpMul_ranking`, C11's `interpTog_rules`). -/
+theorem provided_iff (d : Decl) (hn : (allNames d).Nodup) (env : Env) (argv : List Str) (r : Result)
+    (h : parse d env argv = .ok r) :
+    ∃ items, explain d argv = some items ∧
+      (∀ o ∈ d.opts, ∀ v p, interpOpt env items o = .ok (v, p) → (o.name ∈ r.provided ↔ p = true)) ∧
+      (∀ m ∈ d.muls, ∀ vs p, interpMul env items m = .ok (vs, p) → (m.name ∈ r.provided ↔ p = true)) ∧
+      (∀ t ∈ d.togs, ∀ c p, interpTog env items t = .ok (c, p) → (t.name ∈ r.provided ↔ p = true)) := by
+  obtain ⟨_, items, hex, hi⟩ := parse_ok_inv d hn env argv r h
+  exact ⟨items, hex, interp_provided_iff d hn env items r hi⟩
 
 end NitroVerif.Props.C03
